@@ -12,6 +12,8 @@ P = {'id': 'C16',
               'seq_counters_exact',
               'seq_counters_zero',
               'seq_writer_exclusion',
+              'solo_acquire_refines',
+              'solo_release_refines',
               'two_writers_refuted',
               'min_version_overtakes_refuted',
               'reclaim_unsafe_refuted',
